@@ -148,6 +148,7 @@ structure RawConfig where
   dnsV4              : List String
   dnsV6              : List String
   loCidr             : String
+  forceBinary        : String := ""   -- FORCE_IPTABLES_BINARY
 
 /-- Result classes printed by both sides. -/
 inductive Outcome
@@ -168,6 +169,8 @@ def RawConfig.parse (r : RawConfig) : Outcome :=
   -- Config.Validate
   if r.ownerGroupsInclude != "*" && (splitList r.ownerGroupsInclude).length > maxOwnerGroupsInclude then
     .invalid "ownergroups" else
+  -- ValidateIptablesBinary
+  if !(r.forceBinary == "" || r.forceBinary == "legacy" || r.forceBinary == "nft") then .invalid "binary" else
   match validLoopbackCidr r.loCidr with
   | none => .invalid "loopbackcidr"
   | some lo =>
@@ -216,11 +219,14 @@ structure Environment where
   loCidr             : Option String   -- ISTIO_OUTBOUND_IPV4_LOOPBACK_CIDR (unset: 127.0.0.1/32)
   envoyUID           : String          -- uid of ENVOY_USER, or DefaultProxyUID when the lookup fails
   dualStack          : Bool            -- --dual-stack
+  addrError          : Bool := false   -- net.InterfaceAddrs() fails
+  forceBinary        : String := ""    -- --force-iptables-binary
   localAddrs         : List String     -- net.InterfaceAddrs(), in order
   resolvConf         : List String     -- nameservers of /etc/resolv.conf
 
 /-- An interface address: family and value (`Unmap` applied: IPv4-mapped text is IPv4). -/
 def parseLocalAddr (s : String) : Option (Bool × Nat) :=
+  if s.startsWith "ipaddr:" then none else     -- a net.Addr that is not a *net.IPNet is skipped
   if s.contains ':' then
     match parseV6 s with
     | some a => if a / 2 ^ 32 == 0xffff then some (false, a % 2 ^ 32) else some (true, a)
@@ -260,6 +266,7 @@ def ipsSplitV4V6 (l : List String) : List String × List String :=
 /-- `flags`: the values given on the command line or through the flags' environment variables
     ("" = absent, DefaultConfig value stays). `none`: FillConfigFromEnvironment returns an error. -/
 def RawConfig.fill (flags : RawConfig) (e : Environment) : Option RawConfig :=
+  if e.addrError then none else
   match getLocalIsV6 e.dualStack (e.localAddrs.filterMap parseLocalAddr) false with
   | none => none
   | some isV6 =>
@@ -276,6 +283,7 @@ def RawConfig.fill (flags : RawConfig) (e : Environment) : Option RawConfig :=
     ownerGroupsExclude := e.ownerGroupsExclude.getD "",
     loCidr := e.loCidr.getD "127.0.0.1/32",
     enableIPv6 := isV6,
+    forceBinary := e.forceBinary,
     dnsV4 := if useResolv then (ipsSplitV4V6 e.resolvConf).1 else [],
     dnsV6 := if useResolv then (ipsSplitV4V6 e.resolvConf).2 else [] }
 
